@@ -58,6 +58,20 @@ theorem resample_guards (px : Option (K × K)) (new : K) (hn : new ≠ 0) :
       rw [← h]; constructor <;> field_simp
     · exact ⟨by simp [resample, h], by simp [resample, h], by intro p' s hp _ hs; simp [resample, h] at hs⟩
 
+/-- unit invariance: measuring every length in another unit (all pixel scales multiplied by `k ≠ 0`) changes neither the
+refusals nor the scale factor of `resample` — so no absolute tolerance on pixel scales (e.g. "already close enough") can be
+part of it: a plane sampled in nanometres is resampled exactly like the same plane described in metres -/
+theorem resample_unit_invariant (px : Option (K × K)) (new k : K) (hk : k ≠ 0) (hn : new ≠ 0) :
+    resample (px.map fun p => (k * p.1, k * p.2)) (k * new) = resample px new := by
+  cases px with
+  | none => rfl
+  | some p =>
+    simp only [resample, Option.map_some, resampleScale]
+    by_cases h : p.1 = p.2
+    · simp only [h, if_true, Resample.scale.injEq]; field_simp
+    · have : ¬ (k * p.1 = k * p.2) := fun e => h (mul_left_cancel₀ hk e)
+      simp [h, this]
+
 /-- the amplitude is divided by `s` exactly when it is an array (so that the `s²`-times more samples carry the same power);
 a scalar amplitude or OPD is passed through -/
 theorem amplitude_factor (s : K) :
